@@ -58,6 +58,16 @@ def there_follows(ctx):
             continue
         if p.end != "return":
             continue
+        ma = re.match(r"^Iterator::all\(Iterator::enumerate\(%s\), closure (.*)\[a1\]\)$" % re.escape(CH), strip_ver(r))
+        if ma and len(gs0) == 1:
+            # the comparison loop written as `s.iter().enumerate().all(|(i, c)| pattern[idx + i] == *c)`: by the
+            # meaning of `all` the answer is true iff every comparison holds and false at the first that does not
+            cb = ctx.body(RC + "there_follows::{closure#0}")
+            rs = {strip_ver(render(q.ret)) for q in ctx.walk(cb).paths} if cb is not None else set()
+            good = rs in ({"eq(a2.1, a1.0.pattern[add(a2.0, a1.0.idx)])"}, {"eq(a1.0.pattern[add(a2.0, a1.0.idx)], a2.1)"}, {"eq(a2.1, a1.0.pattern[add(a1.0.idx, a2.0)])"}, {"eq(a1.0.pattern[add(a1.0.idx, a2.0)], a2.1)"})
+            for k in ("true-after-all-equal", "false-on-mismatch", "compares-same-index"):
+                _rec(d, k, good, "the look-ahead is `all` over the characters of s, but its predicate is not pattern[idx+i] == s[i]; found %s" % sorted(rs), loc)
+            continue
         cmps = [g for g in gs0 if re.match(r"^!?eq\(", g) and "a1.pattern[add(a1.idx, " in g]
         if r == "true":
             _rec(d, "true-after-all-equal", gs0[-1].endswith("=None") and all(not g.startswith("!") for g in cmps), "true may be answered only after every character compared equal (iterator exhausted); guards %s" % gs0[-2:], loc)
